@@ -105,6 +105,36 @@ func crossesNestedArray(v interface{}, comps []string) bool {
 	return false
 }
 
+// fanDepth is the largest number of arrays that resolving comps on v crosses
+// at non-terminal positions (by implicit traversal or by index) on one branch.
+func fanDepth(v interface{}, comps []string) int {
+	if len(comps) == 0 {
+		return 0
+	}
+	switch x := v.(type) {
+	case bson.D:
+		if c, ok := get(x, comps[0]); ok {
+			return fanDepth(c, comps[1:])
+		}
+	case bson.A:
+		best := 0
+		if idx, ok := isIndex(comps[0]); ok && idx < len(x) {
+			if d := fanDepth(x[idx], comps[1:]); d > best {
+				best = d
+			}
+		}
+		for _, e := range x {
+			if ed, ok := e.(bson.D); ok {
+				if d := fanDepth(ed, comps); d > best {
+					best = d
+				}
+			}
+		}
+		return 1 + best
+	}
+	return 0
+}
+
 // cands expands terminal arrays: element values plus the array itself.
 func cands(bs []Branch) []interface{} {
 	var out []interface{}
@@ -268,6 +298,13 @@ func matchOp(root interface{}, path, op string, operand interface{}) (bool, erro
 		// behind a fan-out is flattened by lungo, kept by MongoDB)
 		switch op {
 		case "$eq", "$ne", "$gt", "$gte", "$lt", "$lte", "$in", "$nin", "$not":
+		case "$size":
+			// one level of fan-out is in the domain (every sub-document's
+			// value is looked at on its own); below a second level lungo
+			// hands the operator the collected inner values as one array
+			if fanDepth(root, strings.Split(path, ".")) > 1 {
+				return false, ErrOutside
+			}
 		default:
 			for _, b := range bs {
 				if _, isA := b.V.(bson.A); isA {
@@ -377,11 +414,6 @@ func matchOp(root interface{}, path, op string, operand interface{}) (bool, erro
 		n, ok := wholeInt(operand)
 		if !ok || n < 0 {
 			return false, ErrInvalid
-		}
-		if fan {
-			// a fanned-out path is only in the agreement domain for
-			// comparisons with a non-null scalar operand
-			return false, ErrOutside
 		}
 		for _, b := range bs {
 			if a, ok := b.V.(bson.A); ok && int64(len(a)) == n {
